@@ -168,7 +168,9 @@ func (c *ShipConnection) CloseConnection(safe bool, code int, reason string) {
 			state == model.SmeHelloStateRejected
 
 		// this may not be used for Connection Data Exchange is entered!
-		if safe && state == model.SmeStateComplete {
+		// and there is nothing to announce if the data connection is already closed
+		dataConnectionClosed, _ := c.dataWriter.IsDataConnectionClosed()
+		if safe && state == model.SmeStateComplete && !dataConnectionClosed {
 			// SHIP 13.4.7: Connection Termination Announce
 			closeMessage := model.ConnectionClose{
 				ConnectionClose: model.ConnectionCloseType{
@@ -178,7 +180,11 @@ func (c *ShipConnection) CloseConnection(safe bool, code int, reason string) {
 				},
 			}
 
-			_ = c.sendShipModel(model.MsgTypeEnd, closeMessage)
+			// do not use sendShipModel here: it closes this connection if the data connection
+			// is closed, which would re-enter shutdownOnce and block forever
+			if shipMsg, err := c.marshalShipMessage(model.MsgTypeEnd, closeMessage); err == nil {
+				_ = c.dataWriter.WriteMessageToWebsocketConnection(shipMsg)
+			}
 
 			go func() {
 				// wait a bit to let it send
@@ -414,6 +420,11 @@ func (c *ShipConnection) shipMessage(typ byte, model interface{}) ([]byte, error
 		return nil, err
 	}
 
+	return c.marshalShipMessage(typ, model)
+}
+
+// transform a SHIP model into EEBUS specific JSON without checking the data connection
+func (c *ShipConnection) marshalShipMessage(typ byte, model interface{}) ([]byte, error) {
 	if model == nil {
 		return nil, errors.New("invalid data")
 	}
